@@ -33,10 +33,10 @@ STREAMS = {
 }
 
 PROPS = {
-    "C01": {"modules": [], "streams": ["heap", "fit"]},
-    "C02": {"modules": [], "streams": ["heap", "prim", "fit"]},
-    "C03": {"modules": [], "streams": ["fit", "semi"]},
-    "C05": {"modules": [], "streams": ["heap"]},
+    "C01": {"modules": ["OpfVerif.Props.C01"], "streams": ["heap", "fit"]},
+    "C02": {"modules": ["OpfVerif.Props.C02"], "streams": ["heap", "prim", "fit"]},
+    "C03": {"modules": ["OpfVerif.Props.C03"], "streams": ["fit", "semi"]},
+    "C05": {"modules": ["OpfVerif.Props.C05"], "streams": ["heap"]},
 }
 
 
